@@ -1,5 +1,7 @@
 //! Shared helpers for the conformance harness binaries.
 use serde_json::Value;
+
+pub mod shapes;
 use std::collections::HashMap;
 
 /// `--key value` command line arguments.
